@@ -7,6 +7,7 @@
 import Imeta.Props.C10
 import Imeta.Props.C12
 import Imeta.Model.Png
+import Imeta.Props.C11
 namespace Imeta.C02
 open Imeta
 
@@ -44,5 +45,12 @@ theorem C02_png_terminates (b : Bytes) : (Png.scan b).isFuel = false := by
   · split
     · exact png_chunks_fuel b (b.length / 8 + 1) 8 (by omega)
     · rfl
+
+
+/-- ISOBMFF: every inner-box loop is given (unread bytes)/8 + 2 rounds and never needs more (a round that continues has
+consumed at least the 8 bytes of a box header): the "fuel" outcome is unreachable -/
+theorem C02_isobmff_loops_bounded {h : Bytes → Bmff.M Unit} (hp : ∀ t, Bmff.Pres (h t)) (hh : ∀ t, Bmff.NP (h t)) (oe : Bmff.OnErr)
+    (s : Bmff.St) (hn : s.chain ≠ []) : Bmff.NPat (Bmff.innerLoop h oe (s.rest.length / 8 + 2)) s :=
+  Bmff.innerLoop_total hp hh oe _ s hn (by omega)
 
 end Imeta.C02
